@@ -21,6 +21,7 @@ pub static PROP: Prop = Prop {
     rule: "a composable pair (f,g) of generated diagrams (non-monogamous, cyclic, isolated nodes, zero-arity operations included) and a functor table: object map label -> list of length 0..3, operation map (label, source type, target type) -> generated diagram of the mapped type (single operation, arbitrary small diagram, or spider-only); map_arrow through the strict trait and through the lax trait (dyn_functor) compared up to isomorphism with substitution on the plain model; functoriality laws; non-trivial = >= 1 hyperedge and (an object image of length != 1 or an operation image that is not a single operation); distinct = hash of (f, g, functor table)",
     assumptions: &["functor images are typed consistently with the object map by construction (the trait documents a possible panic otherwise)"],
     fixed: None,
+    scale: None,
 };
 
 pub fn table_for(t: &mut Tape, ctx: &mut Ctx, al: gen::Alpha, ds: &[&Diagram]) -> TableFunctor {
